@@ -15,6 +15,9 @@ def run(ctx):
     else:
         ctx.pipe([h, "matrix", "200", "7", "12"], "matrix", label="matrix-small")
         ctx.pipe([h, "matrix", "20", "9", "12"], "matrix", label="matrix-9x12")
+    # the operators a GMGPolar object holds after setup(), also after setter / re-setup histories (boundary mode, strategy, size)
+    hs = ctx.build_harness("h_solver")
+    ctx.pipe([hs, "opsym", "12" if ctx.tier == "quick" else "120"], "trace", label="solver-object-operators")
     ctx.assumptions += ["positive definiteness is PROVED in Dirichlet mode (C05.pd_dirichlet) and symmetry in both modes; across the "
                         "origin no nodal argument exists (C05.psd_across_fails is a machine-checked counterexample under pointwise "
                         "ellipticity alone), so that part is measured per generated case by the exact LDL^T",
